@@ -257,6 +257,23 @@ func C15(c *fw.Ctx) {
 			}
 		}
 	}
+	// the same array / object reachable several times from one printed value (no cycle)
+	if c.Mine() {
+		id := model.Id
+		shared := [][]*model.N{
+			{model.Var("s", model.Arr(model.Num(1), model.Num(2))), model.Print(model.Arr(id("s"), id("s")))},
+			{model.Var("s", model.Arr(model.Num(1), model.Num(2))), model.Print(model.Obj([]string{"p", "q"}, []*model.N{id("s"), id("s")}))},
+			{model.Var("o", model.Obj([]string{"k"}, []*model.N{model.Str("v")})), model.Print(model.Arr(id("o"), id("o"), id("o")))},
+			{model.Var("s", model.Arr(model.Num(1))), model.Print(model.Arr(model.Arr(id("s"), model.Num(3)), model.Arr(id("s"), model.Num(4))))},
+			{model.Var("e", model.Arr()), model.Var("eo", model.Obj(nil, nil)), model.Print(model.Arr(id("e"), id("e"), id("eo"), id("eo")))},
+			{model.Var("s", model.Arr(model.Str("x"))), model.Var("t", model.Arr(id("s"), id("s"))), model.Print(model.Arr(id("t"), id("t"), id("s")))},
+			{model.Var("o", model.Obj([]string{"k"}, []*model.N{model.Arr(model.Num(1))})), model.Print(model.Obj([]string{"a", "b"}, []*model.N{id("o"), model.Prop(id("o"), "k")})), model.Print(id("o"))},
+			{model.Var("s", model.Arr(model.Num(1), model.Num(2))), model.Print(model.Bin("+", model.Str(""), model.Num(1))), model.Print(model.CallN(model.BiAppend, model.Arr(id("s")), id("s")))},
+		}
+		for _, pr := range shared {
+			judge(c, pr, judgeOpts{SigPrefix: "shared-container"})
+		}
+	}
 	// nested containers of the above
 	if c.Mine() {
 		prog := []*model.N{model.Print(model.Arr(model.Str("ক"), model.Arr(model.Num(1.5), model.Nil(), model.Bool(true)), model.Obj([]string{"z", "a"}, []*model.N{model.Str("é"), model.Arr(model.Num(1000000))})))}
